@@ -4,3 +4,7 @@ import Dicom.Props.C06
 #print axioms Dicom.C06.frag_shape
 #print axioms Dicom.C06.frag_content
 #print axioms Dicom.C06.file_eq_bytes
+#print axioms Dicom.C06.fragN_size
+#print axioms Dicom.C06.fragN_shape
+#print axioms Dicom.C06.fragN_content
+#print axioms Dicom.C06.fileN_eq_bytes
